@@ -254,6 +254,13 @@ def run(ctx):
             b = rng.choice(TOKS)
             inputs.append((form % (a, b) + '\n', 2, 64, False, False, 'syntax error at each kind of token'))
             inputs.append((form % (b, a) + '\n', 2, 64, False, False, 'syntax error at each kind of token'))
+    # arithmetic whose operands become immediates only inside the code generator (.length of global arrays and of literals, incl. zero-length)
+    for decl in ('int buf[0];\n', 'byte buf[0];\n', 'int[] buf = [];\n', 'int buf[3];\n', 'const int[] buf = [];\n', 'string buf = "";\n'):
+        for e in ('10 / buf.length', '10 % buf.length', 'buf.length / buf.length', '[].length % buf.length', '7 / [].length', '7 % [1, 2].length', 'buf.length * 0 / buf.length', '0 / "".length',
+                  '(3 + 4) / (buf.length - buf.length)', '"abc".length / ([] .length)', '5 / ("" is byte[]).length'):
+            for unchecked in (False, True):
+                inputs.append((decl + 'empty @is_you() { if (buf.length != 0) { write(%s); } write(1); }\n' % e, 2, 64, unchecked, False, 'generator-level constant arithmetic'))
+                inputs.append((decl + 'int g = 0;\nempty @is_you() { while (g > 0) { g = %s; } write(g); }\n' % e, 4, 64, unchecked, False, 'generator-level constant arithmetic'))
     import sweeps
     for _ in range(40 * N):
         inputs.append((sweeps.label_hygiene_program(rng), rng.choice([2, 4]), 300, rng.random() < 0.3, False, 'identifiers that look like generated labels'))
